@@ -21,6 +21,7 @@ numeric_jacobian / multi_grad_of_fn with an instrumented Python function == the 
 """
 import json
 import math
+import re
 from fractions import Fraction as Fr
 
 import numpy as np
@@ -149,6 +150,8 @@ def render(n):
         return "({x*x}'" + render(n[1]) + ")"
     if k == "join":
         return "(" + ",".join(render(a) for a in n[1]) + ")"
+    if k == "flat":
+        return f"(,/{render(n[1])})"
     raise ValueError(k)
 
 
@@ -291,28 +294,28 @@ def gen_v(rng, env, n, depth, allow_trans):
     return rng.choice(leaves)
 
 
-def gen_m(rng, depth, allow_trans):
-    """elementwise tree over the matrix parameter x (scalars are constants)"""
+def gen_m(rng, depth, allow_trans, pname="x"):
+    """elementwise tree over the matrix parameter (scalars are constants)"""
     if depth <= 0:
-        return ["par", "x"]
+        return ["par", pname]
     r = rng.random()
     if r < 0.45:
         op = rng.choice(["add", "sub", "mul", "mul", "div"])
         shape = rng.choice(["mm", "cm", "mc"])
-        a = gen_m(rng, depth - 1, allow_trans) if shape[0] == "m" else ["const", frs(rng.choice(CONSTS))]
-        b = gen_m(rng, depth - 1, allow_trans) if shape[1] == "m" else ["const", frs(rng.choice(CONSTS))]
+        a = gen_m(rng, depth - 1, allow_trans, pname) if shape[0] == "m" else ["const", frs(rng.choice(CONSTS))]
+        b = gen_m(rng, depth - 1, allow_trans, pname) if shape[1] == "m" else ["const", frs(rng.choice(CONSTS))]
         return [op, a, b]
     if r < 0.52:
-        return ["neg", gen_m(rng, depth - 1, allow_trans)]
+        return ["neg", gen_m(rng, depth - 1, allow_trans, pname)]
     if r < 0.68:
-        return ["pow", gen_m(rng, depth - 1, allow_trans), rng.choice([2, 2, 3, -1, -2, 1, 0])]
+        return ["pow", gen_m(rng, depth - 1, allow_trans, pname), rng.choice([2, 2, 3, -1, -2, 1, 0])]
     if r < 0.74:
-        return ["gpow", gen_m(rng, rng.choice([0, depth - 1]), allow_trans),
-                rng.choice([gen_m(rng, 0, allow_trans), ["const", frs(rng.choice(CONSTS))]])]
+        return ["gpow", gen_m(rng, rng.choice([0, depth - 1]), allow_trans, pname),
+                rng.choice([gen_m(rng, 0, allow_trans, pname), ["const", frs(rng.choice(CONSTS))]])]
     if r < 0.84:
         fns = RAT_FNS + (TRANS_FNS if allow_trans else ())
-        return ["call", rng.choice(fns), gen_m(rng, depth - 1, allow_trans)]
-    return ["par", "x"]
+        return ["call", rng.choice(fns), gen_m(rng, depth - 1, allow_trans, pname)]
+    return ["par", pname]
 
 
 def gen_join(rng, env, depth, allow_trans):
@@ -772,7 +775,12 @@ class Real:
             return orig(*a, **kw)
         ag.numeric_jacobian = spy
         try:
-            r = k(program)
+            # `<<py b=w>>` between two statements: bind b to the very object w is bound to, from Python
+            parts = re.split(r";<<py (\w+)=(\w+)>>;", program)
+            r = k(parts[0])
+            for i in range(1, len(parts), 3):
+                k[parts[i]] = k[parts[i + 1]]
+                r = k(parts[i + 2])
             return "ok", to_np(r), bool(used)
         except Exception as e:
             self.drop(backend)          # do not let a failed case leak state into the next
@@ -872,13 +880,38 @@ def gen_probe(rng, depth, vector):
     return [rng.choice(["sum", "sum", "prod"]), t] if vector else t
 
 
-def value_program(body, env):
+def transposed_lit(v, as_int=False):
+    """a matrix point written as the Klong Transpose of its transpose: `(+[[..] [..]])` — the same
+    value, but a column-major (not C-contiguous) numpy array / a transposed tensor view"""
+    t = [list(col) for col in zip(*v)]
+    return f"(+{point_lit(t, as_int)})"
+
+
+def bindings(env, as_int, var):
+    """`name::value` statements of the named parameters.  Variants: matrices as `+A` (transposed
+    layout); `alias` {b: w}: b bound to the very object of w — `b::w`, or from Python"""
+    var = var or {}
+    alias = var.get("alias") or {}
+    out, py = [], []
+    for k in env.params:
+        if k in alias:
+            if var.get("alias_py"):
+                py.append(f"<<py {k}={alias[k]}>>")
+            else:
+                out.append(f"{k}::{alias[k]}")
+        elif env.kind(k) == "M" and var.get("transposed"):
+            out.append(f"{k}::{transposed_lit(env.params[k], bool(as_int))}")
+        else:
+            out.append(f"{k}::{bind_lit(env.params[k], as_int)}")
+    return ";".join(out + py)
+
+
+def value_program(body, env, var=None):
     """plain evaluation of the function at the point (precondition of every gradient form)"""
     names = list(env.params)
     if names == ["x"]:
-        return f"x::{point_lit(env.params['x'])};f::{{{body}}};f(x)"
-    binds = ";".join(f"{k}::{point_lit(env.params[k])}" for k in names)
-    return f"{binds};loss::{{{body}}};loss()"
+        return f"{bindings(env, False, var)};f::{{{body}}};f(x)"
+    return f"{bindings(env, False, var)};loss::{{{body}}};loss()"
 
 
 def bind_lit(v, as_int):
@@ -892,10 +925,14 @@ def bind_lit(v, as_int):
     return point_lit(v, True)
 
 
-def program(form, body, env, as_int=False, tree=None):
+def program(form, body, env, as_int=False, tree=None, var=None):
     names = list(env.params)
     if form in SINGLE_FORMS + JAC_FORMS:
         p = point_lit(env.params["x"], as_int)
+        if env.kind("x") == "M" and (var or {}).get("transposed"):
+            p = transposed_lit(env.params["x"], as_int)
+            if form == "nabla":
+                form = "nabla-sym"          # ∇ does not evaluate its left operand: the point goes by name
         if env.kind("x") == "S" and env.params["x"] < 0:
             # `-1.5∇f` parses as -(1.5∇f) and ∇ does not evaluate its left operand: a negative
             # scalar point cannot be written there; ∂ evaluates it, so parentheses do
@@ -915,7 +952,7 @@ def program(form, body, env, as_int=False, tree=None):
             "sysjac": f".jacobian({{{body}}};{p})",
             "sysjac-named": f"g::{{{body}}};.jacobian(g;{p})",
         }[form]
-    binds = ";".join(f"{k}::{bind_lit(env.params[k], as_int)}" for k in names)
+    binds = bindings(env, as_int, var)
     if form == "multi-ag":
         return f"{binds};loss::{{{body}}};loss:>[{' '.join(names)}]"
     if form == "multi-partial":
@@ -961,6 +998,7 @@ def gen_case(rng, quick):
     """one (tree, parameters, family) triple inside the smooth domain"""
     for _ in range(40):
         fam = rng.choice(["scalar", "vector", "vector", "matrix", "jac", "jac", "multi", "multi", "multi-jac", "probe"])
+        var = {}
         allow_trans = rng.random() < 0.3
         depth = rng.choice([1, 2, 2, 3] if quick else [1, 2, 2, 3, 3])
         if fam == "probe":
@@ -986,12 +1024,24 @@ def gen_case(rng, quick):
             tree = gen_join(rng, env, depth, allow_trans) if env.kind("x") == "V" else \
                 ["join", [gen_s(rng, env, depth, allow_trans) for _ in range(rng.choice([1, 2, 3]))]]
         else:
-            names = rng.choice([["w", "b"], ["w", "b", "c"], ["a", "b"], ["w", "c"]])
+            names = rng.choice([["w", "b"], ["w", "b", "c"], ["a", "b"], ["w", "c"]] +
+                               ([["M", "b"], ["M", "w"]] if fam == "multi" else []))
             params = {}
             for nm in names:
-                params[nm] = gen_point(rng, "S" if nm in ("a", "b") else "V")
+                params[nm] = gen_point(rng, "S" if nm in ("a", "b") else ("M" if nm == "M" else "V"))
+            vecs = [nm for nm in names if nm in ("w", "c")]
+            if len(vecs) == 2 and rng.random() < 0.3:
+                # two names bound to the very same array object (tied weights: c::w)
+                params[vecs[1]] = list(params[vecs[0]])
+                var = dict(alias={vecs[1]: vecs[0]}, alias_py=rng.random() < 0.4)
             env = Env(params)
-            tree = gen_s(rng, env, depth, allow_trans) if fam == "multi" else gen_join(rng, env, depth, allow_trans)
+            if "M" in names:
+                # a matrix parameter (half of the time with the transposed, column-major layout)
+                var = dict(transposed=rng.random() < 0.6)
+                tree = [rng.choice(["add", "mul"]), ["sum", ["flat", gen_m(rng, max(1, depth - 1), allow_trans, "M")]],
+                        gen_s(rng, env, depth - 1, allow_trans)]
+            else:
+                tree = gen_s(rng, env, depth, allow_trans) if fam == "multi" else gen_join(rng, env, depth, allow_trans)
         if tree_size(tree) > (14 if quick else 22):
             continue
         if any(not depends(tree, nm) for nm in params) and rng.random() > 0.04:
@@ -1000,7 +1050,9 @@ def gen_case(rng, quick):
             Oracle(strip_flat(tree), oracle_env(env))
         except (NotSmooth, ZeroDivisionError, OverflowError, ValueError):
             continue
-        return fam, tree, params
+        if fam == "matrix":
+            var = dict(transposed=rng.random() < 0.5)
+        return fam, tree, params, var
     return None
 
 
@@ -1071,7 +1123,7 @@ def judge(got, orc, backend, numeric, nops):
     return kind, J, tol, (int(i), int(j))
 
 
-def run_case(ctx, model, real, fam, tree, params, forms=None, backends=None, quick=True, as_int=None):
+def run_case(ctx, model, real, fam, tree, params, forms=None, backends=None, quick=True, as_int=None, var=None):
     env = Env(params)
     oenv = oracle_env(env)
     otree = strip_flat(tree)
@@ -1149,7 +1201,7 @@ def run_case(ctx, model, real, fam, tree, params, forms=None, backends=None, qui
     #      case says nothing about differentiation: plain evaluation is C01 / C08)
     usable = []
     for backend in backends:
-        status, val, _ = real.run(backend, value_program(body, env))
+        status, val, _ = real.run(backend, value_program(body, env, var))
         okv = False
         if status == "ok":
             try:
@@ -1180,9 +1232,10 @@ def run_case(ctx, model, real, fam, tree, params, forms=None, backends=None, qui
         else:
             as_int = r < 0.2
     base["as_int"] = as_int
+    base["var"] = var or {}
     results = {}
     for form in forms:
-        prog = program(form, body, env, as_int, tree)
+        prog = program(form, body, env, as_int, tree, var)
         for backend in backends:
             case = dict(base, form=form, backend=backend, program=prog)
             ctx.count((prog, backend), nontrivial=nops >= 3)
@@ -1202,7 +1255,7 @@ def run_case(ctx, model, real, fam, tree, params, forms=None, backends=None, qui
                 # jacobian_of_fn on the same f — is right and `.jacobian` is not, the failure is that.
                 g0 = assemble(val, form, env, m, n) if status == "ok" else None
                 if g0 is None or judge(g0, orc, backend, numeric, nops)[0] != "ok":
-                    st2, v2, fb2 = real.run(backend, program("partial-named", body, env, as_int, tree))
+                    st2, v2, fb2 = real.run(backend, program("partial-named", body, env, as_int, tree, var))
                     g2 = assemble(v2, "partial-named", env, m, n) if st2 == "ok" else None
                     if g2 is not None and judge(g2, orc, backend, numeric or fb2, nops)[0] != "wrong-value":
                         ctx.bump("deviation:sysjac:function-argument-evaluation")
@@ -1380,10 +1433,10 @@ def run_bookkeeping(ctx, drv, count):
     k = KlongInterpreter()
     be = k._backend
     for it in range(count):
-        kind = ctx.rng.choice(["grad", "grad", "grad2d", "grad0d", "jac", "multi"])
+        kind = ctx.rng.choice(["grad", "grad", "grad2d", "grad2dT", "grad0d", "jac", "multi"])
         if kind == "grad0d":
             shape = ()
-        elif kind == "grad2d":
+        elif kind in ("grad2d", "grad2dT"):
             shape = ctx.rng.choice([(2, 2), (2, 3), (3, 2), (1, 3)])
         else:
             shape = (ctx.rng.randrange(1, 5),)
@@ -1391,7 +1444,7 @@ def run_bookkeeping(ctx, drv, count):
         x = [ctx.rng.choice(GRID) for _ in range(n)]
         p = ",".join(frs(v) for v in x)
         log = []
-        if kind in ("grad", "grad2d", "grad0d"):
+        if kind in ("grad", "grad2d", "grad2dT", "grad0d"):
             t = quad_tree(ctx.rng, n)
 
             def f(y, t=t, shape=shape):
@@ -1400,7 +1453,12 @@ def run_bookkeeping(ctx, drv, count):
                 log.append(([float(v) for v in y.reshape(-1)], ok_shape))
                 return ev_tree(t, y.reshape(-1))
             xin = np.array([float(v) for v in x], dtype=float).reshape(shape)
-            case = dict(kind="bookkeeping:numeric_grad", shape=list(shape), x=[frs(v) for v in x], f=toks(t))
+            if kind == "grad2dT":
+                # the same point as a transposed view: column-major memory, not C-contiguous
+                xin = np.ascontiguousarray(xin.T).T
+                assert not xin.flags["C_CONTIGUOUS"] or 1 in shape
+            case = dict(kind="bookkeeping:numeric_grad", shape=list(shape), x=[frs(v) for v in x], f=toks(t),
+                        layout="transposed" if kind == "grad2dT" else "row-major")
             ctx.count(("bk", kind, p, toks(t)))
             try:
                 g = ag.numeric_grad(f, xin, be)
@@ -1414,7 +1472,12 @@ def run_bookkeeping(ctx, drv, count):
                 if rats(exact["grad"]) != mg:
                     ctx.mismatch("central_diff_exact_quadratic instance: model loop vs exact gradient of a quadratic",
                                  case, r["grad"], exact["grad"])
-                if not close_seq([q for q, _ in log], mp) or not all(ok for _, ok in log):
+                seen = [q for q, _ in log]
+                if kind == "grad2dT":
+                    # np.nditer walks a column-major array in memory order: the same probes, another order
+                    seen = sorted(seen)
+                    mp = sorted(mp, key=lambda q: [float(v) for v in q])
+                if not close_seq(seen, mp) or not all(ok for _, ok in log):
                     ctx.mismatch("Klong.C06.numGradState.probes vs numeric_grad call arguments", case,
                                  [[float(v) for v in q] for q in mp], [q for q, _ in log])
                     continue
@@ -1426,7 +1489,8 @@ def run_bookkeeping(ctx, drv, count):
                     if gg.shape != shape or not np.allclose(gg.reshape(-1), [float(v) for v in mg], rtol=1e-5, atol=1e-5 * scale):
                         ctx.oracle_fail("numpy:numeric_grad:wrong-value", case, [float(v) for v in mg], gg.tolist())
                     continue
-            ctx.bump("bookkeeping:numeric_grad:" + ("0d" if shape == () else f"{len(shape)}d"))
+            ctx.bump("bookkeeping:numeric_grad:" + ("0d" if shape == () else f"{len(shape)}d") +
+                     ("-transposed" if kind == "grad2dT" else ""))
         elif kind == "jac":
             mo = ctx.rng.randrange(1, 4)
             ts = [quad_tree(ctx.rng, n) for _ in range(mo)]
@@ -1550,6 +1614,21 @@ FIXED = [
     ("probe", ["sum", ["call", "exp", ["par", "x"]]], {"x": [Fr(1), Fr(2), Fr(-1, 2)]}),
     ("probe", ["mul", ["call", "sqrt", ["par", "x"]], ["call", "log", ["par", "x"]]], {"x": Fr(2)}),
     ("probe", ["sum", ["mul", ["par", "x"], ["call", "cos", ["par", "x"]]]], {"x": [Fr(3, 2), Fr(3)]}),
+    # matrix points with the transposed (column-major) layout, M::+A
+    ("matrix", ["sum", ["flat", ["mul", ["par", "x"], ["par", "x"]]]],
+     {"x": [[Fr(1), Fr(4)], [Fr(2), Fr(5)], [Fr(3), Fr(6)]]}, dict(transposed=True)),
+    ("matrix", ["sum", ["flat", ["pow", ["par", "x"], 3]]], {"x": [[Fr(1), Fr(2)], [Fr(-1), Fr(3, 2)]]}, dict(transposed=True)),
+    ("multi", ["mul", ["sum", ["flat", ["mul", ["par", "M"], ["par", "M"]]]], ["par", "b"]],
+     {"M": [[Fr(1), Fr(4)], [Fr(2), Fr(5)], [Fr(3), Fr(6)]], "b": Fr(1, 2)}, dict(transposed=True)),
+    ("multi", ["mul", ["sum", ["flat", ["mul", ["par", "M"], ["par", "M"]]]], ["par", "b"]],
+     {"M": [[Fr(1), Fr(4)], [Fr(2), Fr(5)]], "b": Fr(3)}, dict(transposed=False)),
+    # two parameters bound to the identical array object (b::w in Klong, and from Python)
+    ("multi", ["sum", ["add", ["mul", ["par", "w"], ["par", "w"]], ["mul", ["const", "3/1"], ["par", "c"]]]],
+     {"w": [Fr(1), Fr(2), Fr(3)], "c": [Fr(1), Fr(2), Fr(3)]}, dict(alias={"c": "w"}, alias_py=False)),
+    ("multi", ["sum", ["add", ["mul", ["par", "w"], ["par", "w"]], ["mul", ["const", "3/1"], ["par", "c"]]]],
+     {"w": [Fr(1), Fr(2), Fr(3)], "c": [Fr(1), Fr(2), Fr(3)]}, dict(alias={"c": "w"}, alias_py=True)),
+    ("multi-jac", ["join", [["mul", ["par", "w"], ["par", "c"]], ["sum", ["par", "c"]]]],
+     {"w": [Fr(1), Fr(2)], "c": [Fr(1), Fr(2)]}, dict(alias={"c": "w"}, alias_py=False)),
     # integer atoms as parameter bindings in loss:>[w b]
     ("multi", ["add", ["pow", ["par", "a"], 2], ["pow", ["par", "b"], 2]], {"a": Fr(2), "b": Fr(3)}, "lit"),
     ("multi", ["add", ["pow", ["par", "a"], 2], ["mul", ["par", "b"], ["par", "a"]]], {"a": Fr(2), "b": Fr(-3)}, "sum"),
@@ -1615,7 +1694,10 @@ def run(ctx):
         ctx.extra["torch_backend"] = real.have_torch()
         for fx in FIXED:
             fam, tree, params = fx[:3]
-            run_case(ctx, model, real, fam, tree, params, quick=False, as_int=fx[3] if len(fx) > 3 else None)
+            extra = fx[3] if len(fx) > 3 else None
+            run_case(ctx, model, real, fam, tree, params, quick=False,
+                     as_int=extra if isinstance(extra, str) else None,
+                     var=extra if isinstance(extra, dict) else None)
         cdir = common.CORPUS / "C06"
         if cdir.exists():
             for p in sorted(cdir.glob("*.json")):
@@ -1628,7 +1710,7 @@ def run(ctx):
             g = gen_case(ctx.rng, quick)
             if g is None:
                 continue
-            run_case(ctx, model, real, *g, quick=quick)
+            run_case(ctx, model, real, *g[:3], quick=quick, var=g[3])
             done += 1
     finally:
         if drv:
@@ -1645,7 +1727,7 @@ def replay(ctx, case):
             forms = [c["form"]] if "form" in c else None
             backends = [c["backend"]] if "backend" in c else None
             run_case(ctx, model, real, c["family"], c["tree"], params_from_json(c["params"]),
-                     forms=forms, backends=backends, quick=False, as_int=c.get("as_int"))
+                     forms=forms, backends=backends, quick=False, as_int=c.get("as_int"), var=c.get("var"))
         else:
             run_bookkeeping(ctx, drv, 200)
     finally:
